@@ -151,6 +151,8 @@ pub struct Monitors {
     /// jobs for which a cancel was answered: tasks canceled
     canceled_tasks: BTreeSet<TaskId>,
     forgotten: BTreeSet<JobId>,
+    /// selector (and status filter) of the request the polled client is waiting for
+    pub current_sel: Option<(super::world::Sel, Vec<Status>)>,
     pub micro: u32,
     env_idx: usize,
     /// tasks that a worker started by itself from its prefilled backlog
@@ -1041,6 +1043,27 @@ impl Monitors {
                 self.forgotten.insert(*j);
                 obs.class("job-forgotten");
                 let terminated = !b.open && b.tasks.values().all(|k| k.terminal());
+                if let Some((sel, filter)) = &self.current_sel {
+                    let existing: Vec<u32> = before.keys().map(|j| j.as_num()).collect();
+                    if !sel.resolve(&existing).contains(&j.as_num()) {
+                        obs.alarm(
+                            "C13",
+                            step,
+                            "a job that the request did not select disappeared",
+                            format!("job {j}, selector {sel:?}"),
+                        );
+                    }
+                    if let Some(st) = &b.status {
+                        if !filter.is_empty() && !filter.contains(st) {
+                            obs.alarm(
+                                "C13",
+                                step,
+                                "a job whose status is not in the request's filter was forgotten",
+                                format!("job {j} status {st:?} filter {filter:?}"),
+                            );
+                        }
+                    }
+                }
                 if !terminated {
                     obs.alarm(
                         "C13",
@@ -1671,6 +1694,20 @@ impl Monitors {
             return;
         }
         let jobs: BTreeSet<JobId> = delta.canceled.iter().map(|t| t.job_id()).collect();
+        if let Some((sel, _)) = &self.current_sel {
+            let existing: Vec<u32> = before.keys().map(|j| j.as_num()).collect();
+            let selected = sel.resolve(&existing);
+            for j in &jobs {
+                if !selected.contains(&j.as_num()) {
+                    obs.alarm(
+                        "C08",
+                        step,
+                        "cancel affected a job that the request did not select",
+                        format!("job {j}, selector {sel:?}"),
+                    );
+                }
+            }
+        }
         for j in &jobs {
             let got: BTreeSet<u32> = delta
                 .canceled
@@ -1999,6 +2036,77 @@ impl Monitors {
                 "resource values told to the task are not the ones it holds",
                 format!("{t} on w{w}: {p}"),
             );
+        }
+        // conservation on every live worker: what is free in the pools plus what the running tasks
+        // hold is exactly the worker's resources, index by index ("when it ends everything it held
+        // becomes available again")
+        for (w, ws) in &world.workers {
+            if !ws.alive || l.dead_workers.contains(w) {
+                continue;
+            }
+            let wsnap = ws.sim.snapshot();
+            for (rid, pool) in wsnap.pools.iter().enumerate() {
+                let rid = rid as u32;
+                let mut held_amount = 0u64;
+                let mut held_idx: BTreeMap<u32, u64> = BTreeMap::new();
+                for r in &wsnap.running {
+                    for a in r.allocation.iter().filter(|a| a.resource_id == rid) {
+                        held_amount += a.amount;
+                        for (i, _g, f) in &a.indices {
+                            *held_idx.entry(*i).or_default() += if *f == 0 { 10_000 } else { *f as u64 };
+                        }
+                    }
+                }
+                match pool {
+                    tako::verif::VerifPoolState::Empty => {}
+                    tako::verif::VerifPoolState::Sum { full_size, free } => {
+                        if free + held_amount != *full_size {
+                            obs.alarm(
+                                "C04",
+                                step,
+                                "worker resources are not conserved: free plus held differs from the size of the resource",
+                                format!("w{w} sum resource {rid}: free {free} + held {held_amount} != size {full_size}; running {:?}", wsnap.running.iter().map(|r| r.task_id).collect::<Vec<_>>()),
+                            );
+                        }
+                    }
+                    tako::verif::VerifPoolState::Indexed { full_size, groups, .. } => {
+                        let mut free_idx: BTreeMap<u32, u64> = BTreeMap::new();
+                        let mut dup = false;
+                        for (whole, partial) in groups {
+                            for i in whole {
+                                dup |= free_idx.insert(*i, 10_000).is_some();
+                            }
+                            for (i, f) in partial {
+                                dup |= free_idx.insert(*i, *f as u64).is_some();
+                            }
+                        }
+                        let free_total: u64 = free_idx.values().sum();
+                        let mut bad: Vec<String> = Vec::new();
+                        if dup {
+                            bad.push("an index is listed twice in the free state".into());
+                        }
+                        if free_total + held_amount != *full_size {
+                            bad.push(format!("free {free_total} + held {held_amount} != size {full_size}"));
+                        }
+                        let all: BTreeSet<u32> = free_idx.keys().chain(held_idx.keys()).copied().collect();
+                        for i in all {
+                            let f = free_idx.get(&i).copied().unwrap_or(0);
+                            let h = held_idx.get(&i).copied().unwrap_or(0);
+                            if f + h != 10_000 {
+                                bad.push(format!("index {i}: free {f} + held {h} != 10000"));
+                            }
+                        }
+                        if !bad.is_empty() {
+                            obs.alarm(
+                                "C04",
+                                step,
+                                "worker resources are not conserved: free plus held differs from the size of the resource",
+                                format!("w{w} resource {rid}: {}; running {:?}", bad.join("; "), wsnap.running.iter().map(|r| r.task_id).collect::<Vec<_>>()),
+                            );
+                        }
+                    }
+                }
+            }
         }
         let mut per_worker: BTreeMap<WorkerId, Vec<&super::launcher::LiveExec>> = BTreeMap::new();
         for e in l.live.values() {
